@@ -190,6 +190,7 @@ pub struct Runner<T: Flt> {
     pub opts: RunOpts,
     pub cur_rel: f64,
     ragged: u8,
+    alias: bool,
     inbuf: Vec<Vec<T>>,
     outbuf: Vec<Vec<T>>,
 }
@@ -198,6 +199,32 @@ fn fnv(h: &mut u64, x: u64) {
     *h ^= x;
     *h = h.wrapping_mul(0x0000_0100_0000_01B3);
     *h ^= *h >> 29;
+}
+
+/// The argument an in-range `SetRatio{rel}` passes: `rel` itself through the relative setter; through the absolute
+/// setter orig * rel kept literally inside [orig/max, orig*max], and the two ends of the relative range map to the
+/// exact absolute bounds (orig * (1/max) is usually not orig / max).
+pub fn setratio_argument(cfg: &Config, rel: f64, relative_api: bool) -> f64 {
+    let (orig, m) = (cfg.ratio, cfg.max_rel);
+    if relative_api {
+        rel
+    } else if rel == 1.0 / m {
+        orig / m
+    } else if rel == m {
+        orig * m
+    } else {
+        (orig * rel).clamp(orig / m, orig * m)
+    }
+}
+
+/// The ratio the library is in after that call was accepted.
+pub fn setratio_effective(cfg: &Config, rel: f64, relative_api: bool) -> f64 {
+    let (orig, m) = (cfg.ratio, cfg.max_rel);
+    if relative_api {
+        (orig * rel).max(orig / m)
+    } else {
+        setratio_argument(cfg, rel, false)
+    }
 }
 
 pub fn ulp_step(x: f64, k: i32) -> f64 {
@@ -270,6 +297,7 @@ impl<T: Flt> Runner<T> {
             opts,
             cur_rel: 1.0,
             ragged: 0,
+            alias: false,
             inbuf: vec![Vec::new(); cfg.channels],
             outbuf: vec![Vec::new(); cfg.channels],
         };
@@ -346,9 +374,19 @@ impl<T: Flt> Runner<T> {
 
     /// fill input buffers: full paths get `need` frames (first the channel's real frames, then zeros) plus a NaN
     /// slack; partial paths get exactly the channel's real frames (plus a NaN overhang when over-long)
+    /// channel `c` is aliased to its predecessor in this call (same data; on the slices paths the same slice object)
+    fn aliased(&self, c: usize) -> bool {
+        self.alias && c >= 1 && self.cfg.active(c) && self.cfg.active(c - 1) && crate::rng::mix(0xA11A5 ^ (c + self.opts.sig_ch0) as u64 ^ self.trace.cursor) % 3 != 0
+    }
+
     fn fill_input(&mut self, need: usize, valid: usize, slack: usize, partial: bool) {
         let cur = self.trace.cursor;
         for c in 0..self.cfg.channels {
+            if self.aliased(c) {
+                let prev = self.inbuf[c - 1].clone();
+                self.inbuf[c] = prev;
+                continue;
+            }
             let (vc, over) = self.channel_frames(c, valid, need, partial);
             let buf = &mut self.inbuf[c];
             buf.clear();
@@ -433,8 +471,9 @@ impl<T: Flt> Runner<T> {
         };
         LAST_PANIC.with(|p| p.borrow_mut().clear());
         match op {
-            Op::Process { path, valid, slack_in, slack_out, slices, ragged } => {
+            Op::Process { path, valid, slack_in, slack_out, slices, ragged, alias } => {
                 self.ragged = *ragged;
+                self.alias = *alias;
                 self.do_process(idx, &mut rec, *path, *valid, *slack_in as usize, *slack_out as usize, *slices);
             }
             Op::SetRatio { rel, ramp, relative_api } => {
@@ -449,7 +488,8 @@ impl<T: Flt> Runner<T> {
                     // "in range" is literal: the absolute value is kept inside [orig/max, orig*max]
                     // (orig * (1/max) can round to one ulp below orig / max)
                     let m = self.cfg.max_rel;
-                    let v = if *relative_api { *rel } else { (orig * *rel).clamp(orig / m, orig * m) };
+                    let v = setratio_argument(&self.cfg, *rel, *relative_api);
+                    let _ = (orig, m);
                     rec.ctl_bits = v.to_bits();
                     let rel_api = *relative_api;
                     let ramp = *ramp;
@@ -601,6 +641,7 @@ impl<T: Flt> Runner<T> {
         if !path.is_wrapper() {
             self.fill_output(out_len);
         }
+        let alias_flags: Vec<bool> = (0..self.cfg.channels).map(|c| self.aliased(c)).collect();
         let inbuf = std::mem::take(&mut self.inbuf);
         let mut outbuf = std::mem::take(&mut self.outbuf);
         let inst = &mut *self.inst;
@@ -610,7 +651,7 @@ impl<T: Flt> Runner<T> {
         let mut wrapped: Option<Vec<Vec<T>>> = None;
         let ev;
         let r = if slices && path == Path::IntoBuffer {
-            let i: Vec<&[T]> = inbuf.iter().map(|v| v.as_slice()).collect();
+            let i: Vec<&[T]> = (0..inbuf.len()).map(|c| { let mut r = c; while r > 0 && alias_flags.get(r).copied().unwrap_or(false) { r -= 1; } inbuf[r].as_slice() }).collect();
             let mut o: Vec<&mut [T]> = outbuf.iter_mut().map(|v| v.as_mut_slice()).collect();
             alloc::arm();
             let r = catch_unwind(AssertUnwindSafe(|| inst.pib_slices(&i, &mut o, maskref)));
@@ -624,7 +665,7 @@ impl<T: Flt> Runner<T> {
                     Path::VecIntoBuffer => inst.v_pib(&inbuf, &mut outbuf, maskref),
                     Path::Wrapper => {
                         let w = if slices {
-                            let i: Vec<&[T]> = inbuf.iter().map(|v| v.as_slice()).collect();
+                            let i: Vec<&[T]> = (0..inbuf.len()).map(|c| { let mut r = c; while r > 0 && alias_flags.get(r).copied().unwrap_or(false) { r -= 1; } inbuf[r].as_slice() }).collect();
                             inst.wrapper_slices(&i, maskref)?
                         } else {
                             inst.wrapper_vec(&inbuf, maskref)?
@@ -640,7 +681,7 @@ impl<T: Flt> Runner<T> {
                         if partial_none {
                             inst.partial_into_vec(None, &mut outbuf, maskref)
                         } else if slices {
-                            let i: Vec<&[T]> = inbuf.iter().map(|v| v.as_slice()).collect();
+                            let i: Vec<&[T]> = (0..inbuf.len()).map(|c| { let mut r = c; while r > 0 && alias_flags.get(r).copied().unwrap_or(false) { r -= 1; } inbuf[r].as_slice() }).collect();
                             let mut o: Vec<&mut [T]> = outbuf.iter_mut().map(|v| v.as_mut_slice()).collect();
                             inst.partial_into_slices(Some(&i), &mut o, maskref)
                         } else {
@@ -793,6 +834,7 @@ impl<T: Flt> Runner<T> {
         let ch = self.cfg.channels;
         let mut mask = self.mask_arg();
         self.ragged = 0;
+        self.alias = false;
         self.fill_input(need, need, 0, false);
         self.fill_output(pre.out_next);
         let mut inbuf = std::mem::take(&mut self.inbuf);
